@@ -509,6 +509,74 @@ example :
   · simp only [Function.iterate_succ, Function.iterate_zero, Function.comp, CgP.step, CgP.init, lincomb]
     norm_num
 
+/-! ### Round 4: Kaczmarz in RANDOM order, ADMM without its hidden state -/
+section
+variable {K V W : Type} [Field K] [AddCommGroup V] [Module K V] [AddCommGroup W] [Module K W]
+set_option linter.unusedSectionVars false
+
+/-- `kaczmarz(random=True)`: sweeps with the visiting orders `os1 ++ os2` are the sweeps with `os1`
+followed, on the whole state, by the sweeps with `os2`. -/
+theorem C11.kaczmarz_runOrd_append (P : KaczmarzP K V W) (os1 os2 : List (List Nat)) (s : KaczmarzS V W) :
+    P.runOrd (os1 ++ os2) s = P.runOrd os2 (P.runOrd os1 s) := by
+  induction os1 generalizing s with
+  | nil => rfl
+  | cons o os ih => simp only [List.cons_append, KaczmarzP.runOrd, ih]
+
+/-- `kaczmarz(random=True)` resumes exactly when the SEQUENCE OF PERMUTATIONS continues: `n` sweeps
+visiting the operators in the orders `os1`, then a fresh call (temporaries re-allocated, callback log
+empty) whose sweeps use the orders `os2`, give the iterate of one call whose sweeps use `os1 ++ os2`
+— any orders (not even permutations), any number of operators, projection, callback mode.  In the
+code the orders come from numpy's global generator, whose state survives between the two calls:
+that is the split-run oracle of the stream `kaczmarz_random` (seed once, run `n + m`; seed once,
+run `n` then `m`). -/
+theorem C11.resume_kaczmarz_random (P : KaczmarzP K V W) (x0 : V) (tR tR' : Nat → W) (jV jV' : V)
+    (log' : List V) (os1 os2 : List (List Nat)) :
+    (P.runOrd os2 ⟨(P.runOrd os1 ⟨x0, tR, jV, []⟩).x, tR', jV', log'⟩).x =
+      (P.runOrd (os1 ++ os2) ⟨x0, tR, jV, []⟩).x := by
+  rw [C11.kaczmarz_runOrd_append]
+  generalize P.runOrd os1 ⟨x0, tR, jV, []⟩ = a
+  have hfold : ∀ (o : List Nat) (s t : KaczmarzS V W), s.x = t.x →
+      (o.foldl (fun s i => P.inner i s) s).x = (o.foldl (fun s i => P.inner i s) t).x := by
+    intro o
+    induction o with
+    | nil => intro s t h; exact h
+    | cons i o ih =>
+      intro s t h
+      simp only [List.foldl_cons]
+      exact ih _ _ (by simp only [KaczmarzP.inner, h])
+  have hstep : ∀ (o : List Nat) (s t : KaczmarzS V W), s.x = t.x → (P.stepOrd o s).x = (P.stepOrd o t).x := by
+    intro o s t h
+    unfold KaczmarzP.stepOrd
+    split <;> exact hfold o s t h
+  have : ∀ (os : List (List Nat)) (s t : KaczmarzS V W), s.x = t.x → (P.runOrd os s).x = (P.runOrd os t).x := by
+    intro os
+    induction os with
+    | nil => intro s t h; exact h
+    | cons o os ih => intro s t h; simp only [KaczmarzP.runOrd]; exact ih _ _ (hstep o s t h)
+  exact this os2 _ _ rfl
+
+/-- The orders are state that matters (so re-seeding numpy between the calls breaks resumption):
+two operators `x ↦ x`, `x ↦ 2x` with right-hand sides `1`, `0`, visited as `[0,1]` or `[1,0]`, give
+different iterates after one sweep.  Also the non-vacuity instance of `resume_kaczmarz_random`. -/
+theorem C11.kaczmarz_random_order_matters :
+    let P : KaczmarzP ℚ ℚ ℚ := ⟨2, fun i x => if i = 0 then x else 2 * x, fun i _ w => if i = 0 then w else 2 * w,
+      fun i => if i = 0 then 1 else 0, fun _ => 1 / 2, none, fun _ => 0, false⟩
+    (P.runOrd [[0, 1]] ⟨0, fun _ => 0, 0, []⟩).x ≠ (P.runOrd [[1, 0]] ⟨0, fun _ => 0, 0, []⟩).x := by
+  simp only [KaczmarzP.runOrd, KaczmarzP.stepOrd, KaczmarzP.inner, List.foldl, lincomb, applyProj, smul_eq_mul]
+  norm_num
+
+/-- `admm_linearized` cannot be resumed from `x` alone: `z` and `u` are locals initialised to zero
+in every call and not exposed.  On the instance of the non-vacuity example above (with
+`prox_g = ·/4`) one iteration followed by a fresh call with one iteration differs from two. -/
+theorem C11.admm_resume_needs_state :
+    let P : AdmmP ℚ ℚ ℚ := ⟨fun x => 2 * x, fun y => 2 * y, fun x => x - 1 / 4, fun y => y / 4, 1 / 8, 1⟩
+    (P.stepOpt^[1] (P.initOpt (P.stepOpt^[1] (P.initOpt 1 0 (-77))).x 0 (-77))).x ≠
+      (P.stepOpt^[1 + 1] (P.initOpt 1 0 (-77))).x := by
+  simp only [Function.iterate_succ, Function.iterate_zero, Function.comp, AdmmP.stepOpt,
+    AdmmP.initOpt, lincomb, smul_eq_mul]
+  norm_num
+end
+
 /-! ### Callbacks -/
 
 /-- Callbacks: a loop `for _ in range(n): step; callback(x)` calls the callback exactly `n` times,
